@@ -117,10 +117,12 @@ class Dispatcher(InstructionGenerator):
 
             return instructions
 
+        # fleets are visited in a fixed order: a vehicle in several fleets can be matched more than once and
+        # the instruction generated last is the one that takes effect
         if len(environment.fleet_ids) > 0:
-            fleet_ids = environment.fleet_ids
+            fleet_ids = tuple(sorted(environment.fleet_ids))
         else:
-            fleet_ids = frozenset([None])
+            fleet_ids = (None,)
 
         initial_instructions: Tuple[DispatchTripInstruction, ...] = tuple()
 
